@@ -122,6 +122,25 @@ fn pool() -> &'static Pool {
             let tc_low = tcs.iter().map(|s| s.temperature.to_reduced()).fold(f64::INFINITY, f64::min);
             bins.push(BinSys { name, eos, tc_low });
         }
+        // one more binary from another model family (same window: T_c ratio < 1.5, no LLE).
+        // Peng-Robinson propane/butane was tried and removed: its *un-guided* bubble and dew
+        // points "converge" to an empty system (p ~ 1e-133 .. 1e-220, reported as success) for
+        // some inputs and flip between that and the right answer on last-bit changes of the
+        // composition, which is a defect of the stand-alone solve (C05), not of a guess.
+        {
+            let p = SaftVRMieParameters::from_json(
+                vec!["ethane", "propane"],
+                repo_file("parameters/saftvrmie/lafitte2013.json"),
+                None,
+                IdentifierOption::Name,
+            )
+            .unwrap_or_else(|e| crate::systems::harness(&format!("lafitte2013: {e}")));
+            let eos = eos_of(ResidualModel::SaftVRMie(SaftVRMie::new(Arc::new(p))), 2);
+            let tcs = State::critical_point_pure(&eos, None, SolverOptions::default())
+                .unwrap_or_else(|e| crate::systems::harness(&format!("critical points of saftvrmie binary: {e}")));
+            let tc_low = tcs.iter().map(|s| s.temperature.to_reduced()).fold(f64::INFINITY, f64::min);
+            bins.push(BinSys { name: "saftvrmie_ethane_propane", eos, tc_low });
+        }
         Pool {
             pures,
             bins,
@@ -1138,8 +1157,13 @@ fn driver_line(ctx: &mut Ctx, sc: &Driver, z: f64, bubble: bool, opts: SolverOpt
         }
         if let Some(k) = grid.iter().position(|t| deviation(*t, g.t, 1e-300) <= 1e-9) {
             present[k] = true;
-            // only well inside the two-phase region the stand-alone start is reliable
-            if g.t <= 0.93 * tc {
+            // only well inside the two-phase region the stand-alone start is reliable, and only
+            // inside the calibrated temperature window of the property (below 0.65 of the lower
+            // T_c the *un-guided* Peng-Robinson bubble point was seen to "converge" to an empty
+            // system, p = 1e-196 - a defect of the stand-alone solve, i.e. C05, not of the guess)
+            if g.t < 0.65 * sys.tc_low {
+                ctx.out.count("window.line_point_below_0.65Tc_low", 1);
+            } else if g.t <= 0.93 * tc {
                 let r = if bubble { ref_bubble_t(s, grid[k], z) } else { ref_dew_t(s, grid[k], z) };
                 if let Some(r) = r {
                     judge(ctx, "driver-point-mismatch", "driver_line", format!("{} line of {} (z={z}, {} points from {} Tc): state at T={}", if bubble { "bubble" } else { "dew" }, sys.name, n, sc.tmin_f, g.t), g, &r, TOL_BD, TOL_BD, "driver_line");
@@ -1168,7 +1192,7 @@ fn driver_line(ctx: &mut Ctx, sc: &Driver, z: f64, bubble: bool, opts: SolverOpt
     if sc.max_iter.is_none() {
         for k in 0..grid.len() {
             let standalone_call = k == 0 || !present[k - 1];
-            if !standalone_call || near(&fired, grid[k]) || grid[k] > 0.93 * tc {
+            if !standalone_call || near(&fired, grid[k]) || grid[k] > 0.93 * tc || grid[k] < 0.65 * sys.tc_low {
                 continue;
             }
             let r = if bubble { ref_bubble_t(s, grid[k], z) } else { ref_dew_t(s, grid[k], z) };
